@@ -104,6 +104,7 @@ cls_of = z3.Function("cls", I, I)
 role_of = z3.Function("role", I, I)
 owner_of = z3.Function("owner", I, I)
 slot_of = z3.Function("slot", I, I)
+ftag_of = z3.Function("heldby", I, I)        # which attribute holds a container (ownership: at most one field holds it)
 NNODES = z3.Int("NumberOfServiceNodes")      # network.number_of_nodes (ghost constant of the configuration)
 StrOf = z3.Function("StrOf", Val, I)          # str(x) as an atom id
 Intended = z3.Function("Intended", R, R)      # Decimal(str(float x))  -- shortest-repr decimal of x
@@ -222,6 +223,7 @@ class Executor:
         self.contract_stack = []
         self.loop_alive = []
         self.last_frame_summary = {}
+        self.role_alt = {}       # id of a pointwise modifies predicate on a typed container -> the coarser role predicate
         self.comp_info = {}
         self.literal_seqs = {}
 
@@ -832,7 +834,7 @@ class Executor:
             p = self.type_pred(ty, term, st)
             self.assume(st, z3.simplify(p))
         if ty.kind in ("list", "dict"):
-            self.assume(st, owner_of(sv.t) == o.t)
+            self.assume(st, z3.And(owner_of(sv.t) == o.t, ftag_of(sv.t) == self.S.atom("field:" + name)))
         return sv
 
     def store_field(self, st, o, name, sv, node):
@@ -869,6 +871,7 @@ class Executor:
                     self.heap_set(st, hn, z3.Store(h, r2, h[sv.t]), fresh_obj=True)
             st.assume(role_of(r2) == self.rid(ty.name))
             st.assume(owner_of(r2) == o.t)
+            st.assume(ftag_of(r2) == self.S.atom("field:" + name))
             sv = SV("ref", r2, ty)
         if hk == "val" and ty.sort() != "val":
             t = self.coerce(sv, ty, st, node, f"store-{name}")
@@ -1621,7 +1624,17 @@ class Executor:
                 out.append((s, ("raise", c)))
                 continue
             for s2, tv in self.branch(s, self.truthy(c, s)):
-                out.extend(self.exec_block(stmt.body if tv else stmt.orelse, s2))
+                if self.noprune:
+                    # trial execution (all syntactic paths): a branch that cannot be executed symbolically is skipped
+                    # only if it is infeasible here; were it feasible in a later iteration, the real execution of the
+                    # body would stop on the same construct, so nothing is silently missed
+                    try:
+                        out.extend(self.exec_block(stmt.body if tv else stmt.orelse, s2))
+                    except Unsupported:
+                        if self.feasible(s2, z3.BoolVal(True)):
+                            raise
+                else:
+                    out.extend(self.exec_block(stmt.body if tv else stmt.orelse, s2))
         return out
 
     def ex_Assign(self, stmt, st):
